@@ -2,12 +2,38 @@ import PySMT.Proofs.C07Ops
 import PySMT.Proofs.C07Decls
 import PySMT.Proofs.C07Example
 import PySMT.Proofs.C07DagSound
+import PySMT.Proofs.C07WF
 /-!
 # C07 — SMT-LIB export is well-formed and denotes the same thing: property theorems
 
-Model: `Impl/Printer.lean` (`toSexp` = `SmtPrinter`, `toSexpDag` = `SmtDagPrinter`, `scriptOfFormula`); specification:
-`Spec/Sexp.lean` (SMT-LIB 2.6 lexicon) and `Spec/SmtlibText.lean` (`readStd`, `runStd`: the standard's reading);
-hypotheses: `Impl/PrinterHyp.lean` (`Printable` = WT ∧ NamesOK ∧ Normal, `ScriptOK`, `avGuard`, `noQuant`).
+Model: `Impl/Printer.lean` (`toSexp` = `SmtPrinter`, `toSexpDag` = `SmtDagPrinter`, `scriptOfFormula`, `scriptOfCmds`; printer
+objects with `annotations = None` — annotations are not modelled); specification: `Spec/Sexp.lean` (SMT-LIB 2.6 lexicon) and
+`Spec/SmtlibText.lean` (`readStd`, `runStd`: the standard's reading); hypotheses: `Impl/PrinterHyp.lean` (`Printable`,
+`ScriptOK`, `cmdsOK`, `avGuard`, `noQuant`).
+
+**What "the same value" means.** `readStd` elaborates text to the shared `Term`, and the value is `eval I` of that term:
+the operator semantics (sdiv/srem signs, division by zero, rotation, strings, arrays) live in the single trusted file
+`Core/Eval.lean`, used on both sides. These theorems establish spelling ↦ operator, argument and index order, literal
+decoding, scoping, declarations; they do not compare `eval` with the theory files.
+
+**Everything `Printable env scope t` excludes** (`Impl/PrinterHyp.lean: stdTy, nodeOK, nameFine, SortOK, binderOK`):
+* the known findings: integer division (F10, `stdTy .div` only on Reals), `str.to.int`/`int.to.str` (F11), `pow` (F44), names
+  containing `|` or `\` (F45), string constants outside printable ASCII or containing a backslash (F46);
+* algebraic constants; instances of parametric sorts, sort names containing `{`, the names `Bool Int Real String` as
+  declared sorts (`SortOK`: plain declared sorts of arity 0 only);
+* **every Int constant when `env.realsOnly`** (`nodeOK .intConst = !env.realsOnly`: under the logics of
+  `Std.realsOnlyLogics` — a list that also contains pySMT-specific names such as `QF_NRAT`, `QF_ALRA`, so it is not written
+  purely from the standard — a numeral is read as a Real);
+* symbol names that are reserved words or **any** of `Std.theorySymbols`, whatever the logic (so `bvadd` in QF_LIA and the
+  index-only names `extract`, `repeat`, `const`, which the standard would let a user declare, are excluded too);
+* `/` applied to two Real constants with a non-zero divisor (the reader folds it to the constant; `FormulaManager.Div`
+  never builds it — needed for the syntactic identity `read_toSexp`, not for soundness);
+* non-canonical nodes that only raw `create_node` builds: wrong arity or payload (`stdTy`), n-ary `and or + * str.++` with
+  fewer than two arguments, bit-vector constants with `value ≥ 2^width` or width 0, array values with a repeated key term,
+  binders without variables / with a repeated name / over function-typed variables; and nodes on which the model of the
+  type checker `typeOfNode` disagrees with `stdTy`;
+* names must resolve: a symbol node is the innermost binder variable of its name or the declared symbol of its name.
+The DAG theorems additionally need `noQuant t` (see `printDag_chain_partial` for what is proved with quantifiers).
 -/
 namespace PySMT.C07
 open PySMT PySMT.Printer PySMT.Std PySMT.Sexp
@@ -79,9 +105,53 @@ theorem decls_before_use_dag_partial (logic : String) (t : Term) (h : ScriptOK l
     ∃ st, runStd (scriptOfFormula logic true t) = .ok st ∧ st.env = scriptEnv logic t ∧ st.live = [unfoldAVw false t] ∧
       (∀ s ∈ t.fv, s ∈ st.env.funs) := Printer.decls_before_use_dag_partial logic t h hq
 
-/-- DAG printing with quantifiers, structure and let-freshness: `toSexpDag t` (any `t`) is a chain of single-binding `let`s
-over generated names `.def_k`, none of which is the quoted name of a free symbol of `t`, and the standard reads it binding
-by binding. `_partial`: for formulas with quantifiers the reading of each right-hand side is checked by K/S only. -/
+/-- Declarations in ANY order: `smtlibscript_from_formula` emits `declare-sort` / `declare-fun` in the iteration order of
+Python sets; for every permutation `ds` of the sort declarations and `fs` of the free symbols the script is accepted, declares
+exactly these (each once, before the assert) and its only live assertion is the formula. (`decls_before_use_partial` is the
+instance `ds = sortDecls t`, `fs = t.fv.eraseDups`, the order K compares after sorting.) -/
+theorem decls_any_order (logic : String) (t : Term) (h : ScriptOK logic t = true)
+    (ds : List (String × Nat)) (fs : List Sym) (hds : ds.Perm (sortDecls t)) (hfs : fs.Perm t.fv.eraseDups) :
+    ∃ st, runStd ([Sexp.list [.atom "set-logic", atomOfText logic]] ++ ds.map declareSort
+        ++ fs.map declareFun ++ [.list [.atom "assert", toSexp t], .list [.atom "check-sat"]]) = .ok st ∧
+      st.live = [unfoldAV t] ∧ st.env.funs.Perm t.fv.eraseDups ∧ st.env.sorts.Perm (sortDecls t) ∧
+      (∀ s ∈ t.fv, s ∈ st.env.funs) := Printer.decls_any_order logic t h ds fs hds hfs
+
+/-- … with the DAG form of the assertion, quantifier-free formulas. -/
+theorem decls_any_order_dag_partial (logic : String) (t : Term) (h : ScriptOK logic t = true) (hq : noQuant t = true)
+    (ds : List (String × Nat)) (fs : List Sym) (hds : ds.Perm (sortDecls t)) (hfs : fs.Perm t.fv.eraseDups) :
+    ∃ st, runStd ([Sexp.list [.atom "set-logic", atomOfText logic]] ++ ds.map declareSort
+        ++ fs.map declareFun ++ [.list [.atom "assert", toSexpDag t], .list [.atom "check-sat"]]) = .ok st ∧
+      st.live = [unfoldAVw false t] ∧ st.env.funs.Perm t.fv.eraseDups ∧ st.env.sorts.Perm (sortDecls t) :=
+  Printer.decls_any_order_dag logic t h hq ds fs hds hfs
+
+/-- General scripts (`SmtLibScript.serialize` over a command list: set-logic, declare-sort, declare-fun, declare-const,
+assert, push, pop, check-sat): accepted by the strict interpreter whenever every command is legal where it stands (`cmdsOK`:
+names speakable and not taken, sorts declared, each asserted formula `Printable` in the environment built by the commands
+before it — so every symbol it uses is declared and has not been popped —, `pop` within the pushed levels); the final state
+is `cmdsRun` (asserted formulas not popped, array values as store chains). `_partial`: DAG form needs `noQuant` per assertion;
+other commands (define-fun, get-value, …) are outside the fragment. -/
+theorem cmds_accepted_partial (dag : Bool) (cmds : List Cmd) (h : cmdsOK dag StdState.init cmds = true) :
+    runStd (scriptOfCmds dag cmds) = .ok (cmdsRun dag StdState.init cmds) := Printer.cmds_accepted dag cmds h
+
+/-- Character level and term level joined: every token the tree printer writes for a `Printable` term has a spelling in the
+SMT-LIB lexicon … -/
+theorem wf_toSexp (env : SEnv) (t : Term) (h : Printable env [] t = true) : Sexp.WF (toSexp t) = true :=
+  Printer.wf_toSexp env t h
+
+/-- … hence the *text* `render (toSexp t)`, read by the standard lexer and reader and elaborated by the standard's reading,
+is the term. `_partial`: the text is the specification's `render` of the model's S-expression (single spaces); pySMT's own
+spacing (`( str.at a b)`, `(forall ((x T)(y T)) …)`) is compared with the model after lexing, by K, not character by
+character. -/
+theorem text_read_toSexp_partial (env : SEnv) (t : Term) (h : Printable env [] t = true) :
+    (Sexp.readOne (Sexp.render (toSexp t))).bind (readStd env []) = .ok (unfoldAV t) :=
+  Printer.text_read_toSexp env t h
+
+/-- DAG printing of ANY term (in particular with quantifiers, the default `serialize(daggify=True)` path for them), what is
+proved: (a) shape — `toSexpDag t` is a chain of single-binding `let`s; (b) names — every bound name is a generated `.def_k`
+that is not the quoted name of a free symbol of `t`; (c) the generic unfolding — the standard reads such a chain binding by
+binding. NOT proved here: that any right-hand side is readable or reads as its sub-formula, that the key denotes `t`, that
+the fuel suffices — for formulas with quantifiers (bodies printed by nested printers) these are checked by K and S on every
+generated formula only; for quantifier-free formulas they are `read_toSexpDag`. -/
 theorem printDag_chain_partial (t : Term) :
     ∃ (binds : List (String × Sexp)) (key : Sexp),
       toSexpDag t = letWrap (binds.map (fun b => (Sexp.atom b.1, b.2))) key ∧
@@ -100,6 +170,17 @@ section
 example : ScriptOK "QF_LIA" t1 = true ∧ Printable (scriptEnv "QF_LIA" t1) [] t1 = true ∧ avGuard t1 = true
     ∧ noQuant t1 = true :=
   ⟨scriptOK_t1, pr_t1 _ (by simp [scriptEnv, fv_t1, SEnv.lookupFun, x]) (by decide), avGuard_t1, noQuant_t1⟩
+/-- further instances (`Proofs/C07Example.lean`): a bit-vector term `(bvult b (bvnot b))`; `(and .def_0 p)` — a user symbol
+spelled like the DAG printer's first let name — with the hypotheses of the DAG theorems; the array value
+`Array(Int, 0, {1: 2, 3: 4})` with `avGuard`; the quantified `(forall ((x Int)) (<= x x))` -/
+example : Printable envBV [] tBV = true := pr_tBV
+example : Printable envDef [] tDef = true ∧ noQuant tDef = true ∧ avGuard tDef = true := ⟨pr_tDef, nq_tDef, ag_tDef⟩
+example : Printable {} [] tAV = true ∧ avGuard tAV = true := ⟨pr_tAV, ag_tAV⟩
+example : Printable {} [] tQ = true := pr_tQ
+/-- a command list with push/pop that `cmds_accepted_partial` speaks about -/
+example : cmdsOK false StdState.init
+    [.setLogic "QF_UF", .declareSort "U" 0, .declareFun ⟨"c", [], .custom "U"⟩, .push 1, .declareConst ⟨"d", [], .custom "U"⟩,
+     .pop 1, .checkSat] = true := by decide +kernel
 /-- the hypothesis of `render_read` -/
 example : Sexp.WF (.list [.atom "<=", .atom "x y", .list [.atom "-", .atom "5"], .str "a\"b", .atom "|12|", .atom "#b01"]) = true := by
   decide +kernel
